@@ -525,6 +525,37 @@ Lemma en_strain_is_ramberg_osgood s L ds dl :
   en_strain E K n Kp s L = eps s /\ en_strain_secondary_branch E K n Kp ds dl = 2 * eps (ds / 2).
 Proof. split; reflexivity. Qed.
 
+(* -------- arguments of either sign (round 3, seeded change C06-6): the reported strain is odd under joint negation of
+   (stress, load) on both branches, and a root of the secondary equation puts (ds, strain_secondary_branch ds) on the
+   Neuber hyperbola  ds * d_eps = dl * K_p * delta_e_star(dl)  for ds of EITHER sign *)
+Lemma en_strain_odd s L ds dl :
+  en_strain E K n Kp (- s) (- L) = - en_strain E K n Kp s L /\
+  en_strain_secondary_branch E K n Kp (- ds) (- dl) = - en_strain_secondary_branch E K n Kp ds dl.
+Proof.
+  destruct (en_strain_is_ramberg_osgood s L ds dl) as [H1 H2].
+  destruct (en_strain_is_ramberg_osgood (- s) (- L) (- ds) (- dl)) as [H3 H4].
+  rewrite H1, H2, H3, H4. replace (- ds / 2) with (- (ds / 2)) by (unfold Rdiv; ring). rewrite !eps_odd. split; ring.
+Qed.
+
+Lemma en_strain_on_hyperbola s L ds dl :
+  (s <> 0 -> f s L = 0 -> s * en_strain E K n Kp s L = L * Kp * en_e_star E K n Kp L) /\
+  (ds <> 0 -> f2 ds dl = 0 -> ds * en_strain_secondary_branch E K n Kp ds dl = dl * Kp * en_delta_e_star E K n Kp dl).
+Proof.
+  destruct (en_strain_is_ramberg_osgood s L ds dl) as [H1 H2]. split.
+  - intros Hs H0. rewrite H1. rewrite en_f_nz in H0 by assumption.
+    assert (He : en_e_star E K n Kp L = eps (L / Kp)) by (unfold en_e_star; reflexivity).
+    rewrite He. assert (Hx : eps s = L / s * Kp * eps (L / Kp)) by lra. rewrite Hx. field. assumption.
+  - intros Hs H0. rewrite H2.
+    assert (Hd : en_delta_e_star E K n Kp dl = 2 * eps (dl / Kp / 2))
+      by (unfold en_delta_e_star; cbv zeta; apply (C16.ro_delta_is_doubled E K n)).
+    rewrite en_secondary_is_doubled in H0.
+    assert (Hh : ds / 2 <> 0) by lra.
+    assert (H0' : f (ds / 2) (dl / 2) = 0) by lra.
+    rewrite en_f_nz in H0' by assumption.
+    rewrite Hd. replace (dl / Kp / 2) with (dl / 2 / Kp) by (pose proof Kp_pos; field; lra).
+    assert (Hx : eps (ds / 2) = dl / 2 / (ds / 2) * Kp * eps (dl / 2 / Kp)) by lra. rewrite Hx. field. assumption.
+Qed.
+
 End EN.
 
 (* ================================================================== Seeger-Beste *)
@@ -717,6 +748,15 @@ Qed.
 Lemma sb_strain_is_ramberg_osgood s L ds dl :
   sb_strain E K n Kp s L = eps s /\ sb_strain_secondary_branch E K n Kp ds dl = 2 * eps (ds / 2).
 Proof. split; reflexivity. Qed.
+
+Lemma sb_strain_odd s L ds dl :
+  sb_strain E K n Kp (- s) (- L) = - sb_strain E K n Kp s L /\
+  sb_strain_secondary_branch E K n Kp (- ds) (- dl) = - sb_strain_secondary_branch E K n Kp ds dl.
+Proof.
+  destruct (sb_strain_is_ramberg_osgood s L ds dl) as [H1 H2].
+  destruct (sb_strain_is_ramberg_osgood (- s) (- L) (- ds) (- dl)) as [H3 H4].
+  rewrite H1, H2, H3, H4. replace (- ds / 2) with (- (ds / 2)) by (unfold Rdiv; ring). rewrite !C16.ro_strain_odd. split; ring.
+Qed.
 
 End SB.
 
